@@ -1,13 +1,19 @@
 #!/bin/bash
-# usage: tools/try_seed.sh <seed dir with patch.diff> <prop> [more props]  -- applies the change to /repo, runs the quick checks, reverts
+# usage: tools/try_seed.sh <seed dir with patch.diff> <prop> [more props]
+# applies the change to /repo only while the simulator is built (under a lock), reverts, then runs the quick checks with that binary
 set -u
-SEED=$1; shift
-cd /repo || exit 2
-if [ -n "$(git status --porcelain)" ]; then echo "repo dirty"; exit 2; fi
-git apply "$SEED/patch.diff" || { echo "patch does not apply"; exit 2; }
-trap 'git -C /repo checkout -- . ; git -C /repo clean -fdq' EXIT
+SEED=$(readlink -f $1); shift
 cd /verif
 for p in "$@"; do
+  bin=$( (
+    flock 9
+    cd /repo || exit 2
+    if [ -n "$(git status --porcelain)" ]; then echo "repo dirty" >&2; exit 2; fi
+    git apply "$SEED/patch.diff" || { echo "patch does not apply" >&2; exit 2; }
+    /verif/check --build-for $p | tail -1
+    git -C /repo checkout -- . ; git -C /repo clean -fdq
+  ) 9>/tmp/repo.lock )
+  case "$bin" in /*sim.test) ;; *) echo "=== $p on $(basename $SEED): build failed: $bin"; continue;; esac
   echo "=== $p on $(basename $SEED)"
-  VERIF_RUNS=${VERIF_RUNS:-40} VERIF_BUDGET=${VERIF_BUDGET:-60} ./check $p ${TIER:-quick} 2>&1 | grep -v "^build" | cut -c1-400 | head -${LINES_MAX:-8}
+  VERIF_USE_BINARY=$bin VERIF_RUNS=${VERIF_RUNS:-40} VERIF_BUDGET=${VERIF_BUDGET:-60} ./check $p ${TIER:-quick} 2>&1 | grep -v "^build" | cut -c1-600 | head -${LINES_MAX:-8}
 done
